@@ -81,6 +81,10 @@ CHECKS.update({
     "C20": dict(cat="exploration", text="(a) the C07 text spaces with the oracle 'returns or raises ValueError'; (b) every nesting family (each composite construct nested in each of its own holes around two innermost programs; period-2 families) to depth 12 (thorough 18), measured by a deterministic count of rebuild() invocations: calls(2d) <= 16*calls(d), cap 2M calls.", ref="DESIGN.md 2/C20", note=TEXT_NOTE + " Growth is judged on call counts, not wall time; families are those of the catalogue.", technique="exhaustive enumeration of short texts and of nesting families x depth, deterministic call-count growth oracle"),
 })
 
+CHECKS.update({
+    "C02": dict(cat="exploration", text="All derivations of a canonical-layout printer for the package-file idiom (header comment, lambda head, let block, body set / call / rec call, 16 member kinds incl. nested sets, call arguments, lists, attrpaths, inherit, with/if values, indented strings, own-line / end-of-line / block comments, single blank lines) up to 3 (thorough 4) members and 2 decorations: parse -> rebuild must return the identical bytes and `nima test` must say OK.", ref="DESIGN.md 2/C02", note="nixfmt is not installed: canonicity is defined by the printer in nixmc/props/c02.py, each production anchored to a nixfmt-validated literal of the repository's own tests or to an RFC 0166 paragraph (table in the module docstring). Multi-line formals (trailing comma) are syntax errors for the pinned grammar and only exercise pass-through.", technique="bounded-exhaustive enumeration of the derivations of a reference printer (grammar-based), byte-identity oracle"),
+})
+
 NOT_YET = {
 }
 
